@@ -269,10 +269,25 @@ var c11Str = &c11Codec[string]{
 	},
 }
 
+// the int stream instantiated with T = any (see encAny): only the functions that take typed []T arguments
+var c11Any = &c11Codec[any]{
+	dec:  func(tok string) any { return encAny(atoi(tok)) },
+	enc:  func(x any) string { return itoa(decAny(x)) },
+	less: func(a, b any) bool { return decAny(a) < decAny(b) },
+	fn: func(name string) func(any) any {
+		f := c11Int.fn(name)
+		return func(x any) any { return encAny(f(decAny(x))) }
+	},
+	bad: func(kind string, _ []any) any { panic("harness: no malformed leaves with T = any") },
+}
+
 func init() {
 	kinds["c11"] = func(p []string) Runner {
 		if len(p) > 0 && p[0] == "str" {
 			return &c11Runner[string]{c11Str}
+		}
+		if len(p) > 0 && p[0] == "any" {
+			return &c11Runner[any]{c11Any}
 		}
 		return &c11Runner[int]{c11Int}
 	}
@@ -425,6 +440,35 @@ func genC11(g *Gen) {
 		}
 		g.Emit("c11", []string{"int"}, ops)
 	}
+	// (0c) T = any: every slice up to length 5 over {-1,0,1,2} (0 and 1 print alike, and so do 2 and 3), and pairs
+	ba := &c11Batch{g: g, elem: "any", size: 60}
+	for _, s := range collect([]int{-1, 0, 1, 2}, 5) {
+		if !g.Mine() {
+			continue
+		}
+		ba.add("unique " + s)
+		ba.add("dup " + s)
+		ba.add("dupidx " + s)
+		ba.add("inter [" + s + "]")
+		ba.add("without " + s + " [0]")
+		ba.add("without " + s + " [1,2]")
+		ba.add("uniqueby f1 " + s)
+	}
+	{
+		p3 := collect([]int{0, 1, 2, 3}, 3)
+		for _, s1 := range p3 {
+			if !g.Mine() {
+				continue
+			}
+			for _, s2 := range p3 {
+				ba.add("diff " + s1 + " " + s2)
+				ba.add("inter [" + s1 + "," + s2 + "]")
+				ba.add("diffby f1 " + s1 + " " + s2)
+				ba.add("interby f1 [" + s1 + "," + s2 + "]")
+			}
+		}
+	}
+	ba.flush()
 	// (0b) Union on typed leaves that share one backing array (memory layout must not matter)
 	if g.Mine() {
 		var ops []string
